@@ -65,7 +65,65 @@ theorem act_cache_local {c : Cfg} {s s' : Sh} {pc pc' : Pc} {sp : List Pc}
   all_goals (first
     | (simp [Pc.wf] at hw; done)
     | (refine ⟨⟨?_, ?_⟩, ?_⟩ <;>
-        simp_all [Pc.wf, K.wf, K.top, Pc.claim, Pc.tracked, Sh.cacheGet, KV.get, KV.set, Res.inst_plain]; done)
-    | (trace_state; sorry))
+        simp_all [Pc.wf, K.wf, K.top, Pc.claim, Pc.tracked, Sh.cacheGet, KV.get, KV.set, Res.inst_plain]; done))
+
+
+structure CacheInv (s : Sys) : Prop where
+  c1 : ∀ q, s.sh.cache.isSome = true → s.sh.ever.get q = (s.sh.cacheGet q).toList
+  c2 : ∀ q, (s.sh.ever.get q).length ≤ 1
+  c3 : ∀ q, 0 < tot (pastRe q) s.thr → s.sh.cache = none ∨ s.sh.ever.get q = []
+  loc : ∀ th ∈ s.thr, CacheLocal s.sh th.pc
+
+theorem CacheInv.step {s s' : Sys} (wf : WfSys s) (g : Gate s) (lk : LockInv s) (inv : CacheInv s)
+    (st : Step s s') : CacheInv s' := by
+  obtain ⟨th, pc', sp, hmem, hact, hsplit, hx⟩ := st.tot_split
+  have hw := wf th hmem
+  have stab := act_stable hact
+  have key : ∀ q, (s'.sh.cache.isSome = true → s'.sh.ever.get q = (s'.sh.cacheGet q).toList) ∧
+      (s'.sh.ever.get q).length ≤ 1 ∧
+      (0 < tot (pastRe q) s'.thr → s'.sh.cache = none ∨ s'.sh.ever.get q = []) ∧
+      (∀ i, i ∈ s.sh.ever.get q → i ∈ s'.sh.ever.get q) := by
+    intro q
+    obtain ⟨n, hn1, hn2⟩ := hsplit (pastRe q)
+    have hone : n + th.pc.pastRe q ≤ 1 := by
+      have h1 := tot_le (m := pastRe q) (m' := holdsL q) (fun t => pastRe_le_holdsL q t.pc) s.thr
+      have h2 := lk.held q
+      have h3 := b2n_le (s.sh.lock.get q)
+      have e : pastRe q th = th.pc.pastRe q := rfl
+      omega
+    have := act_cache q hact hw g.dCache (inv.loc th hmem) n hone (inv.c1 q) (inv.c2 q)
+      (by intro hp; exact inv.c3 q (by have e : pastRe q th = th.pc.pastRe q := rfl; omega))
+    refine ⟨this.1, this.2.1, ?_, this.2.2.2⟩
+    intro hp
+    have e : pastRe q { th with pc := pc' } = pc'.pastRe q := rfl
+    exact this.2.2.1 (by omega)
+  have hloc := act_cache_local hact hw g.dCache (inv.loc th hmem) inv.c1
+  refine ⟨fun q => (key q).1, fun q => (key q).2.1, fun q => (key q).2.2.1, ?_⟩
+  intro x hxm
+  rcases hx x hxm with h | rfl | h
+  · have old := inv.loc x h
+    refine ⟨fun k i hc => (key k).2.2.2 i (old.claim k i hc), fun k i ht => ?_⟩
+    rcases old.tracked k i ht with h1 | h1
+    · exact Or.inl ((key k).2.2.2 i h1)
+    · exact Or.inr (stab.2.2.1 h1)
+  · exact hloc.1
+  · simp only [spawn, List.mem_map] at h
+    obtain ⟨p, hp, rfl⟩ := h
+    have := hloc.2 p hp
+    exact ⟨fun k i hc => by simp [this.1] at hc, fun k i ht => by simp [this.2] at ht⟩
+
+theorem initial_cache {pc : Pc} (h : pc.initial = true) :
+    (∀ q, pc.pastRe q = 0) ∧ pc.claim = none ∧ pc.tracked = none := by
+  cases pc with
+  | rChk k o => cases o <;> simp_all [Pc.initial, Pc.pastRe, Pc.claim, Pc.tracked]
+  | _ => simp_all [Pc.initial, Pc.pastRe, Pc.claim, Pc.tracked]
+
+theorem CacheInv.init (thr : List Thr) (h : ∀ th ∈ thr, th.pc.initial = true) : CacheInv (init thr) := by
+  refine ⟨fun q _ => ?_, fun q => ?_, fun q hp => ?_, fun th ht => ?_⟩
+  · cases q <;> simp [Conc.init, Sh.cacheGet, KV.get]
+  · cases q <;> simp [Conc.init, KV.get]
+  · right; cases q <;> simp [Conc.init, KV.get]
+  · have := initial_cache (h th ht)
+    exact ⟨fun k i hc => by simp [this.2.1] at hc, fun k i hc => by simp [this.2.2] at hc⟩
 
 end Godi.Conc
